@@ -12,7 +12,7 @@ from . import c01
 from .indexfx import (DEPS, TASK, TASKID, TGTS, index_effects, register_effects, unregister_effects)
 
 PROP = "C02"
-FLOORS = {"C02.R1": 4, "C02.R2": 8, "C02.R3": 4, "C02.R4": 6, "C02.R5": 3}
+FLOORS = {"C02.R1": 4, "C02.R2": 8, "C02.R3": 4, "C02.R4": 6, "C02.R5": 3, "C02.R6": 30}
 META = {
     "explanation": "run_tasks executes its argument once each in the given order; toposort/_dfs is a reverse-post-order DFS with "
                    "a grow-only visited set (termination and at-most-once on cycles); no call on the assignment path falls back to "
@@ -185,4 +185,6 @@ def check(col: Collector):
     # the set of triggered tasks is read off the tasks' dependency sets: they must be the expression's full read set
     from . import c05
     from .common import shared
-    shared(col, "C02.R6", [c05._structure], why="a task is triggered through its declared dependencies only")
+    shared(col, "C02.R6", [c05._structure, c05._readset, c05._accumulator],
+           why="a task is triggered (and ordered after its producers) through its declared dependencies only: they must be the "
+               "expression's full read set, for every node class")
